@@ -185,20 +185,13 @@ Proof.
   intros w fuel sl t s a b Hwf H. unfold xsearch_tok in H.
   destruct (Nat.ltb (units_of s) (minlen_u t)); [discriminate |].
   destruct (compile w true t HNull 0) as [o nclos] eqn:Ec.
-  assert (G : forall n start, (fix go (n : nat) (start : nat) : sres :=
-     match omatch w true sl s fuel o (fun o' st' => MR (Some o') st') start (repeat None nclos) with
-     | MFuel => SDiverge
-     | MR (Some e) _ => SFound start e
-     | MR None _ => match n with O => SNone | S n' => go n' (S start) end
-     end) n start = SFound a b ->
-     exists st', omatch w true sl s fuel o (fun o' st' => MR (Some o') st') a (repeat None nclos) = MR (Some b) st').
-  { induction n as [|n IH]; intros start Hg.
-    - destruct (omatch w true sl s fuel o (fun o' st' => MR (Some o') st') start (repeat None nclos)) as [|[e|] st'] eqn:Em; try discriminate.
-      inversion Hg; subst. eauto.
-    - destruct (omatch w true sl s fuel o (fun o' st' => MR (Some o') st') start (repeat None nclos)) as [|[e|] st'] eqn:Em; try discriminate.
+  assert (G : forall run ok n start, search_go run ok n start = SFound a b -> exists st', run a = MR (Some b) st').
+  { intros run ok. induction n as [|n IH]; intros start Hg; cbn [search_go] in Hg; destruct (negb (ok start)); try discriminate.
+    - destruct (run start) as [|[e|] st'] eqn:Em; try discriminate. inversion Hg; subst. eauto.
+    - destruct (run start) as [|[e|] st'] eqn:Em; try discriminate.
       + inversion Hg; subst. eauto.
       + exact (IH _ Hg). }
-  destruct (G _ _ H) as [st' Em].
+  destruct (G _ _ _ _ H) as [st' Em]. cbn beta in Em.
   destruct (omatch_sound w true sl s _ _ _ _ _ _ _ Em) as [m [stm [st'' [[v [rest [E [Hv Hm]]]] Hk]]]].
   inversion Hk; subst m. exists v, rest. split; [exact E |]. split; [symmetry; assumption |].
   apply (compile_sound w true true sl t Hwf HNull 0%nat). rewrite Ec. exact Hv.
